@@ -287,7 +287,42 @@ def r5(ctx):
                nontrivial=False)
 
 
+MJD_FLOATS = {'ebusd::DateTimeDataType::readSymbols': {15078.2: 2, 365.25: 6, 14956.1: 2, 30.6001: 4},
+              'ebusd::DateTimeDataType::writeSymbols': {365.25: 2, 30.6001: 2}}
+MJD_INTS = {'ebusd::DateTimeDataType::readSymbols': {14956, 15020, 54832, 1900, 2000},
+            'ebusd::DateTimeDataType::writeSymbols': {14956, 15020, 54832, 1900, 2000}}
+
+
+def r6(ctx):
+    ctx.rule('C05.R6', 'the modified-julian-day conversions use the constants of the standard algorithm (ETSI EN 300 468 annex '
+             'C): 15078.2, 365.25, 14956.1, 30.6001, 14956, and the epoch offsets 15020 (01.01.1900) and 54832 (01.01.2009); '
+             'each constant is the calendar rule itself, any deviation shifts dates', minimum=8)
+    fb = ctx.fb
+    for name, want in MJD_FLOATS.items():
+        fn = fb.fn(name)
+        ctx.touch(fn)
+        got = {}
+        for x in fn.all('FloatingLiteral'):
+            try:
+                v = round(float(fn.nodes[x].get('fv')), 6)
+            except (TypeError, ValueError):
+                continue
+            got[v] = got.get(v, 0) + 1
+        for c, cnt in sorted(want.items()):
+            ok = got.get(c, 0) >= 1
+            ctx.ob('C05.R6', fn, fn.body, ok, 'constant %s in %s' % (c, name.split('::')[-1]),
+                   'present %d time(s)' % got.get(c, 0), nontrivial=False)
+        extra = sorted(v for v in got if v not in want and v not in (0.0, 1.0))
+        ctx.ob('C05.R6', fn, fn.body, not extra, 'no other floating constant in %s' % name.split('::')[-1],
+               'unexpected floating constants: %s' % extra if extra else 'none')
+        ints = set(fn.nodes[x]['v'] for x in fn.all('IntegerLiteral') if fn.nodes[x].get('v', 0) > 1000)
+        missing = sorted(MJD_INTS[name] - ints)
+        ctx.ob('C05.R6', fn, fn.body, not missing, 'epoch constants in %s' % name.split('::')[-1],
+               'missing %s' % missing if missing else 'all present')
+
+
 def run(ctx):
+    r6(ctx)
     r1(ctx)
     r2(ctx)
     r3(ctx)
